@@ -66,6 +66,11 @@ impl Field for Ed448ScalarField {
     }
 
     fn deserialize(buf: &Self::Serialization) -> Result<Self::Scalar, FieldError> {
+        // The 57th byte of a canonical scalar encoding is always zero; it must
+        // not be ignored, otherwise 256 byte strings denote the same scalar.
+        if buf[56] != 0 {
+            return Err(FieldError::MalformedScalar);
+        }
         match EdwardsScalar::from_canonical_bytes(buf.into()).into() {
             Some(s) => Ok(s),
             None => Err(FieldError::MalformedScalar),
